@@ -305,6 +305,11 @@ def public(ctx):
         ctx.mark(base)
         ctx.case(('public', n, tuple(edges), diag), bool(edges))
         ctx.count('public:' + kind)
+        if it % 2:
+            # the same graph with the column indices of every row stored in a shuffled order (valid CSR, e.g. any product B @ B.T)
+            A = gen.unsorted_copy(A, rng)
+            A.indptr, A.indices = A.indptr.astype(np.int32), A.indices.astype(np.int32)
+            base = dict(base, storage='unsorted column indices')
         for algo, k in (('serial', None), ('parallel', None), ('parallel', 1), ('parallel', 2), ('parallel', 3)):
             x = pg.maximal_independent_set(A, algo=algo, k=k)
             check_mis(ctx, 'maximal_independent_set/%s/k=%s' % (algo, k), n, adj, x.tolist(), k or 1, dict(base, algo=algo, k=k))
@@ -316,8 +321,16 @@ def public(ctx):
         if not all((comp[i] == comp[j]) == (lab[i] == lab[j]) for i in range(n) for j in range(n)) or \
                 sorted(set(comp.tolist())) != list(range(nc)):
             ctx.fail('connected_components', 'labels %s' % comp.tolist(), base)
+        # components are those of the PATTERN: values with a_ij = -a_ji (a central difference, an oriented incidence weight) are edges too
+        Ask = sp.csr_array(A).copy()
+        rsk = np.repeat(np.arange(n), np.diff(Ask.indptr))
+        Ask.data = np.where(rsk < Ask.indices, Ask.data, np.where(rsk > Ask.indices, -Ask.data, Ask.data))
+        comps = pg.connected_components(Ask)
+        if not all((comps[i] == comps[j]) == (lab[i] == lab[j]) for i in range(n) for j in range(n)) or \
+                sorted(set(comps.tolist())) != list(range(nc)):
+            ctx.fail('connected_components/skew-values', 'labels %s for a graph with %d components (values a_ij = -a_ji)' % (comps.tolist(), nc), base)
         Aw = gen.graph_csr(n, edges, diag=False, weights=w)
-        centers = sorted(rng.sample(range(n), rng.choice([1, 2, 3])))
+        centers = rng.sample(range(n), rng.choice([1, 2, 3]))          # in any order: centre k is centers[k]
         d, m, p = pg.bellman_ford(Aw, centers)
         check_bf(ctx, 'bellman_ford', n, Aw, centers, d, m, p, dict(base, centers=centers, weights=w))
         # the same graph with all lengths in other units (tiny and huge exact powers of two): distances scale, nearest
